@@ -36,6 +36,7 @@ type paramCfg struct {
 	LogSc  int      `json:"logscale,omitempty"`
 	NProg  int      `json:"nprog"`
 	Idx    int      `json:"idx"`
+	X      *xcfg    `json:"x,omitempty"` // extended ("x/") cases only, see ext.go
 }
 
 // ltDesc describes one linear transformation of a program.
@@ -65,6 +66,7 @@ type progDesc struct {
 	EncPk    bool     `json:"encpk"`
 	VType    string   `json:"vtype"`
 	LTs      []ltDesc `json:"lts"`
+	X        *xprog   `json:"x,omitempty"`
 }
 
 const (
@@ -428,18 +430,21 @@ func cases(tier string, seed int64) []eng.Case {
 		}
 		mk(paramCfg{Scheme: "ckks", Ring: ringT, LogN: logN, QBits: sh.q, PBits: sh.p, Q: q, P: p, LogSc: eng.Pick(r, 45, 40, 50), NProg: np, Idx: i})
 	}
+	// extended families of the coverage audit (own random stream, ids start with "x/")
+	out = append(out, extCases(tier, seed)...)
 	return out
 }
 
 func init() {
 	eng.Register(&eng.Monitor{
 		ID: "C12", Level: "exploration",
-		Rule:  "cases = parameter sets (scheme bgv/bfv/ckks, ring type, logN 4..10(11), modulus chain shape, plaintext modulus / default scale); inside a case several programs are sampled: API mode (Evaluate, in-place Evaluate, EvaluateNew, EvaluateMany(New) with 2-4 matrices, EvaluateSequential(New) with 2-4 matrices) x matrix dimension (CKKS: 2^1..2^logMaxSlots sparse/full packing; BGV: the packing fixed by t) x diagonal index set kind (zero, single, edge, the stock test list, dense, band, random subset, stride, no-zero, negative-only, high, pair, contiguous block; each non-zero index handed over as k or k-n) x value structure (uniform, ones, half-zero, extreme, permutation through GetDiagonals) x LogBabyStepGiantStepRatio in {-1,0,1,2,3,4,5} x ciphertext level / encoding level / receiver level x LevelP of the keys x scales. Every program is evaluated with exactly the advertised Galois keys and judged against the plaintext matrix-vector product. distinct key = (scheme, ring, logN, logCols, mode, per matrix: normalised diagonal set, sign pattern, ratio, N1, LevelQ; ciphertext level, receiver level, LevelP). non-trivial = at least one evaluated matrix has a diagonal with non-zero index, i.e. at least one key-switched rotation contributes to the checked output.",
+		Rule:  "cases = parameter sets (scheme bgv/bfv/ckks, ring type, logN 4..10(11), modulus chain shape, plaintext modulus / default scale); inside a case several programs are sampled: API mode (Evaluate, in-place Evaluate, EvaluateNew, EvaluateMany(New) with 2-4 matrices, EvaluateSequential(New) with 2-4 matrices) x matrix dimension (CKKS: 2^1..2^logMaxSlots sparse/full packing; BGV: the packing fixed by t) x diagonal index set kind (zero, single, edge, the stock test list, dense, band, random subset, stride, no-zero, negative-only, high, pair, contiguous block; each non-zero index handed over as k or k-n) x value structure (uniform, ones, half-zero, extreme, permutation through GetDiagonals) x LogBabyStepGiantStepRatio in {-1,0,1,2,3,4,5} x ciphertext level / encoding level / receiver level x LevelP of the keys x scales. Every program is evaluated with exactly the advertised Galois keys and judged against the plaintext matrix-vector product. distinct key = (scheme, ring, logN, logCols, mode, per matrix: normalised diagonal set, sign pattern, ratio, N1, LevelQ; ciphertext level, receiver level, LevelP). non-trivial = at least one evaluated matrix has a diagonal with non-zero index, i.e. at least one key-switched rotation contributes to the checked output. | x/<scheme> cases (coverage audit) = the same programs and oracle on further parameter shapes (6 and 8 RNS digits, a single Q prime, more P than Q primes, fixed-weight / sparse / dense ternary secrets, tight and wide Gaussian and ternary errors) where every program additionally draws: the evaluator (one evaluator with a history per case handed on through WithKey(exactly the advertised keys), scratch buffers filled with random or maximal residues, ShallowCopy, ShallowCopy+WithKey, struct literal), the call form (the exported low-level entry points DecomposeNTT+MultiplyByDiagMatrix / PreRotatedCiphertextForDiagonalMatrixMultiplication+MultiplyByDiagMatrixBSGS with an optional stale cache entry, EvaluateMany with the input as last receiver, EvaluateMany with surplus receivers that must stay untouched, EvaluateSequential in place), receivers of degree 2, a transformation that was encoded before with another matrix, and a second identical call on the same evaluator whose outputs must be bit-identical; distinct key = the key above + these draws. Each x/<scheme> case ends with the refusal checks: an advertised key of a rotation of the documented algorithm (naive, baby step, giant step) removed from the key set and the four argument checks of EvaluateMany must give an error, no panic, and leave the non-aliased operands bit-identical. | x/plain cases = plaintext-side entry points on random signed diagonal sets of dimension 2^1..2^8: Diagonals.Evaluate of both schemes against the matrix-vector model, Diagonals.At / DiagonalsIndexList for every stored index in both signed forms and for absent indices, BSGSIndex (exact cover of the index set by giant+baby steps for every N1 | n) and FindBestBSGSRatio (N1 | n), Permutation.GetDiagonals of both schemes against the permutation matrix.",
 		Cases: cases,
 		Assumptions: []string{
 			"encoders/decoders, encryption and decryption are correct (C03, C07); the oracle decrypts with the secret key and decodes with the library decoder, expected values are recomputed on the plaintext side without any lintrans code",
 			"CKKS verdict: |decoded - expected| <= 4 x worst-case budget (key-switch gadget error N*B*sum(alpha*D_i)/P, ModDown rounding, plaintext-diagonal rounding, canonical norm <= N*inf norm) + 2^-40 relative floating-point floor; budgets are kept below 2^-6 by construction so that a wrong rotation (error of order 1) is visible",
 			"BGV verdict: exact equality mod t; parameters are chosen so that t*(worst-case noise) < Q_level/2, hence a correct implementation cannot fail",
+			"x/ families: the scratch buffers an evaluator exposes through GetBuffQP/GetBuffCt/GetBuffDecompQP may hold any reduced residues before a call (they are what earlier operations leave behind); the result of an evaluation is a deterministic function of (input, matrices, keys), so two identical calls on one evaluator give bit-identical outputs; every advertised Galois element of a non-zero rotation of the documented algorithm (GaloisElements: 'needed for the evaluation') is required, so its absence must surface as an error; LevelP = -1 is refused by the library ('level cannot be negative') and is not generated; keys with a base-two decomposition are not generated (the hoisted gadget product documents them as unsupported)",
 			"domain restrictions taken from the code and its in-tree callers: auxiliary modulus P present, diagonals given with full length rows*cols and distinct modulo the dimension, BGV dimension = LogMaxDimensions, one LogDimensions for ciphertext and matrices, EvaluateMany receivers do not alias the input",
 		},
 	})
